@@ -193,10 +193,10 @@ def message_decrypt(rep, prog):
                 dsk.append(c)
             if c[0] == 'self.message.decrypt' and c not in dec:
                 dec.append(c)
-    ok = len(dsk) == 1 and dsk[0][0] == 'skesk.decrypt_sk' and dsk[0][1] == ['passphrase']
+    ok = len(dsk) == 1 and dsk[0][0] == '$1.decrypt_sk' and dsk[0][1] == ['passphrase']     # $1: the loop's packet
     rep.check(ok, 'C04.5', 'PGPMessage.decrypt', 'decrypt_sk call %s' % [(c[0], c[1]) for c in dsk],
               'the session key must be recovered from the loop\'s packet with the caller\'s passphrase', where=fi.where)
-    ok = len(dec) == 1 and dec[0][1] == ['skesk.decrypt_sk(passphrase)[1]', 'skesk.decrypt_sk(passphrase)[0]']
+    ok = len(dec) == 1 and dec[0][1] == ['$1.decrypt_sk(passphrase)[1]', '$1.decrypt_sk(passphrase)[0]']
     rep.check(ok, 'C04.5', 'PGPMessage.decrypt', 'container decrypt args %s' % [c[1] for c in dec],
               'the container must be decrypted with the (key, cipher) that decrypt_sk returned', where=fi.where,
               expected='self.message.decrypt(key, symalg)', found=[c[1] for c in dec])
@@ -260,11 +260,11 @@ def key_decrypt(rep, prog):
             kinds['own'] += 1
             sel = s.env.get('pkesk')
             t = render(sel) if sel is not None else ''
-            _m = re.search(r'for (\w+) in message\._sessionkeys', t)
-            _v = _m.group(1) if _m else 'pk'
-            conj = all(x in t.replace(' ', '') for x in ('message._sessionkeys', 'isinstance(%s,PKESessionKey)' % _v,
-                                                         '%s.pkalg==self.key_algorithm' % _v)) and \
-                any(x in t.replace(' ', '') for x in ('%s.encrypter==self.fingerprint.keyid' % _v, 'self.fingerprint.keyid==%s.encrypter' % _v))
+            _m = re.search(r'EACH\((\$\d+) in message\._sessionkeys if (.*);\1\)', t)
+            _v = _m.group(1) if _m else '$1'
+            _c = (_m.group(2) if _m else '').replace(' ', '')
+            conj = bool(_m) and all(x in _c for x in ('isinstance(%s,PKESessionKey)' % _v, '%s.pkalg==self.key_algorithm' % _v)) and \
+                any(x in _c for x in ('%s.encrypter==self.fingerprint.keyid' % _v, 'self.fingerprint.keyid==%s.encrypter' % _v)) and ' or ' not in _m.group(2)
             rep.check(conj, 'C04.6', 'PGPKey.decrypt', 'session-key packet selection %s' % t[:140],
                       'the packet used must be a public-key session-key packet of this message addressed to this key id and algorithm',
                       where=fi.where, expected='next(pk for pk in message._sessionkeys if isinstance(pk, PKESessionKey) and '
